@@ -50,6 +50,7 @@ namespace ratio
     const smt::lit rho;                 // the propositional literal indicating whether the resolver is active or not..
     const smt::rational intrinsic_cost; // the intrinsic cost of the resolver..
     flaw &effect;                       // the flaw solved by this resolver..
+    const bool own_rho;                 // whether 'rho' has been created for this resolver (true) or is a literal of the problem, e.g., a value of a variable (false)..
     std::vector<flaw *> preconditions;  // the preconditions of this resolver..
   };
 } // namespace ratio
